@@ -4,6 +4,7 @@
 package main
 
 import (
+	"bytes"
 	"fmt"
 	"net"
 	"strings"
@@ -12,6 +13,9 @@ import (
 
 	"go.minekube.com/gate/pkg/edition/java/config"
 	"go.minekube.com/gate/pkg/edition/java/proto/packet"
+	"go.minekube.com/gate/pkg/edition/java/proto/state"
+	"go.minekube.com/gate/pkg/edition/java/proto/util"
+	"go.minekube.com/gate/pkg/edition/java/proto/version"
 	"go.minekube.com/gate/pkg/gate/proto"
 
 	"verifharness/codecx"
@@ -23,6 +27,68 @@ type item struct {
 	spec     string
 	data     []byte
 	consumed bool
+	known    bool // a registered packet type the proxy forwards unchanged (raw payload), crafted so that
+	// re-encoding it from the decoded struct would NOT reproduce the bytes (non-minimal VarInt / JSON spacing)
+}
+
+func vi(v int) []byte {
+	var b bytes.Buffer
+	util.WriteVarInt(&b, v)
+	return b.Bytes()
+}
+func str(s string) []byte { return append(vi(len(s)), s...) }
+
+// knownC2B: ClientSettings with the chat-visibility VarInt encoded non-minimally (81 00 = 1).
+func knownC2B(p proto.Protocol, seq int) ([]byte, bool) {
+	id, ok := state.Play.ServerBound.ProtocolRegistry(p).PacketID(&packet.ClientSettings{})
+	if !ok {
+		return nil, false
+	}
+	b := append(vi(int(id)), str(fmt.Sprintf("m%04x", seq))...)
+	b = append(b, 8)          // view distance
+	b = append(b, 0x81, 0x00) // chat visibility = 1, non-minimal
+	b = append(b, 1)          // chat colors
+	b = append(b, 0x7f)       // skin parts
+	if p.GreaterEqual(version.Minecraft_1_9) {
+		b = append(b, 0x81, 0x00) // main hand = 1, non-minimal
+		if p.GreaterEqual(version.Minecraft_1_17) {
+			b = append(b, 0)
+		}
+		if p.GreaterEqual(version.Minecraft_1_18) {
+			b = append(b, 1)
+			if p.GreaterEqual(version.Minecraft_1_21_2) {
+				b = append(b, 0)
+			}
+		}
+	}
+	return b, true
+}
+
+// knownB2C: HeaderAndFooter (JSON era only) with unusual but valid JSON spacing.
+func knownB2C(p proto.Protocol, seq int) ([]byte, bool) {
+	if p.GreaterEqual(version.Minecraft_1_20_3) {
+		return nil, false
+	}
+	id, ok := state.Play.ClientBound.ProtocolRegistry(p).PacketID(&packet.HeaderAndFooter{})
+	if !ok {
+		return nil, false
+	}
+	b := append(vi(int(id)), str(fmt.Sprintf(`{ "text" :  "m%04x" }`, seq))...)
+	return append(b, str(`{"text":""}`)...), true
+}
+
+func isMarked(c *proto.PacketContext) bool {
+	if len(c.Payload) == 0 {
+		return false
+	}
+	if c.Packet == nil {
+		return c.Payload[0] == 0x7d
+	}
+	switch c.Packet.(type) {
+	case *packet.ClientSettings, *packet.HeaderAndFooter:
+		return true
+	}
+	return false
 }
 
 // mkPayload: first byte = an id unknown to gate in the play state of every version (0x7d), then a sequence marker.
@@ -68,7 +134,7 @@ func session(emit func(class, op, impl string), r *hx.Rng, p proto.Protocol, thr
 	b.Accept = e2e.BackendScript(p, thrB, func(ep *e2e.Endpoint) {
 		backendReady <- ep
 		ep.Pump(func(c *proto.PacketContext) {
-			if c.Packet == nil && len(c.Payload) > 0 && c.Payload[0] == 0x7d {
+			if isMarked(c) {
 				mu.Lock()
 				atBackend = append(atBackend, append([]byte(nil), c.Payload...))
 				mu.Unlock()
@@ -115,18 +181,14 @@ func session(emit func(class, op, impl string), r *hx.Rng, p proto.Protocol, thr
 				}
 				deadline := time.Now().Add(20 * time.Second)
 				for len(atClient) < want && time.Now().Before(deadline) {
-					c, err := cl.Next(time.Until(deadline), func(c *proto.PacketContext) bool {
-						return c.Packet == nil && len(c.Payload) > 0 && c.Payload[0] == 0x7d
-					})
+					c, err := cl.Next(time.Until(deadline), isMarked)
 					if err != nil {
 						break
 					}
 					atClient = append(atClient, append([]byte(nil), c.Payload...))
 				}
 				// give the proxy a moment to deliver anything surplus, then look once more without blocking long
-				if c, err := cl.Next(150*time.Millisecond, func(c *proto.PacketContext) bool {
-					return c.Packet == nil && len(c.Payload) > 0 && c.Payload[0] == 0x7d
-				}); err == nil {
+				if c, err := cl.Next(150*time.Millisecond, isMarked); err == nil {
 					atClient = append(atClient, c.Payload)
 				}
 				wantB := 0
@@ -161,9 +223,12 @@ func session(emit func(class, op, impl string), r *hx.Rng, p proto.Protocol, thr
 		}
 		s := make([]string, len(its))
 		for i, it := range its {
-			if it.consumed {
+			switch {
+			case it.consumed:
 				s[i] = "x:" + it.spec
-			} else {
+			case it.known:
+				s[i] = "k:" + it.spec
+			default:
 				s[i] = "u:" + it.spec
 			}
 		}
@@ -197,10 +262,23 @@ func main() {
 		if p < 47 {
 			tc, tb = -1, -1
 		}
-		mk := func() []item {
+		mk := func(c2b bool) []item {
 			n := 1 + r.Intn(12)
 			its := make([]item, n)
 			for j := range its {
+				if r.Chance(1, 5) {
+					var d []byte
+					var ok bool
+					if c2b {
+						d, ok = knownC2B(p, i*16+j)
+					} else {
+						d, ok = knownB2C(p, i*16+j)
+					}
+					if ok {
+						its[j] = item{spec: hx.Hex(d), data: d, known: true}
+						continue
+					}
+				}
 				if r.Chance(1, 6) {
 					its[j] = item{spec: fmt.Sprintf("7d%02x", j), data: []byte{0x7d, byte(j)}, consumed: true}
 					continue
@@ -226,7 +304,7 @@ func main() {
 			}
 			return its
 		}
-		jobs = append(jobs, job{p, tc, tb, mk(), mk(), hx.NewRng(r.U64())})
+		jobs = append(jobs, job{p, tc, tb, mk(true), mk(false), hx.NewRng(r.U64())})
 	}
 	// sessions are independent: run a few in parallel, record in order
 	results := make([]func(), len(jobs))
